@@ -5,14 +5,14 @@ from common import Report, log
 
 MANIFEST = dict(
     technique='Coq proofs over ALL schedules and any number of goroutines (metrics update protocol as a small-step program regenerated from the source each run; goroutines over fresh pools; lockset discipline over the regenerated access table of every package-level variable) + race-detector build and barrier-released rounds on the implementation',
-    text="Theorems: metrics_exact (every counter equals its initial value plus the sum of every call's adds, the largest/smallest query size are the true maximum/minimum, for every interleaving of the individual atomic operations of any number of concurrent Record* calls; proved generically for add-only locations and for the compare-and-swap loop, instantiated on the programs translated from the current source of pkg/metrics and pkg/sql/monitor, shape check discharged by complete evaluation); *_refuted (the load-compare-store form loses the extreme: concrete two-goroutine schedule); results_sequential (goroutines that share only pools of observationally fresh objects return what they return alone, any schedule); footprint_race_free (every access to package-level state that is written outside init is a pool/once/atomic/sync.Map operation or holds the variable's mutex in a mode excluding the conflicting access: lockset discipline on the access table regenerated from go/ssa). Implementation: translated programs are replayed sequentially against GetStats; barrier-released single-record rounds compare the totals with the true values after quiescence; N in {2, cores, 4*cores} goroutines run seeded mixes of tokenize/parse/format/extract/scan/lint/suggest/span/config/metrics-read under the race detector, every result compared with the sequential answer.",
+    text="Theorems: metrics_exact (every counter equals its initial value plus the sum of every call's adds, the largest/smallest query size are the true maximum/minimum, for every interleaving of the individual atomic operations of any number of concurrent Record* calls; proved generically for add-only locations and for the class of compare-and-swap retry loops (is_rmw_loop: a decidable abstract execution of the translated control-flow graph — any loop/break/continue/flag/helper layout, not one literal instruction list), instantiated on the programs translated from the current source of pkg/metrics and pkg/sql/monitor (metrics state found by role, same-package helpers inlined, short-circuit conditions as control flow), shape check discharged by complete evaluation); *_refuted (load-compare-store and a single swap attempt lose the extreme: concrete two-goroutine schedules); results_sequential (goroutines that share only pools of observationally fresh objects return what they return alone, any schedule); footprint_race_free (every access to package-level state that is written outside init is a pool/once/atomic/sync.Map operation or holds the variable's mutex in a mode excluding the conflicting access: lockset discipline on the access table regenerated from go/ssa). Implementation: translated programs are replayed sequentially against GetStats; barrier-released single-record rounds compare the totals with the true values after quiescence; N in {2, cores, 4*cores} goroutines run seeded mixes of tokenize/parse/format/extract/scan/lint/suggest/span/config/metrics-read under the race detector, every result compared with the sequential answer.",
     note=common.BASE_NOTE + "sync/atomic operations are taken as sequentially consistent single steps and a critical section under the struct's mutex as one atomic step; the access table is complete for accesses reachable through package-level variables by field/index/pointer paths and direct calls (dynamic calls listed in evidence); 'no data race under the Go memory model' beyond that footprint rests on the race detector over the explored schedules, which is supporting evidence, not proof.",
     design='6/C10')
 
 PROPS = ["Props.C10.C10_metrics_totals_exact", "Props.C10.C10_monitor_totals_exact", "Props.C10.C10_counters_exact_always",
-         "Props.C10.C10_max_load_compare_store_refuted", "Props.C10.C10_min_load_compare_store_refuted",
+         "Props.C10.C10_max_load_compare_store_refuted", "Props.C10.C10_min_load_compare_store_refuted", "Props.C10.C10_max_single_attempt_refuted",
          "Props.C10.C10_results_sequential", "Props.C10.C10_footprint_race_free", "Props.C10.C10_common_lock_orders"]
-INST = ["Inst_C10.metrics_progs_ok", "Inst_C10.monitor_progs_ok", "Inst_C10.max_update_is_cas_loop", "Inst_C10.min_update_is_cas_loop",
+INST = ["Inst_C10.metrics_progs_ok", "Inst_C10.monitor_progs_ok", "Inst_C10.max_update_is_rmw_loop", "Inst_C10.min_update_is_rmw_loop",
         "Inst_C10.tokenization_contributes", "Inst_C10.parse_contributes", "Inst_C10.globals_ok"]
 # which public operations of the mix touch the state of a package (to aim the race-detector search at a broken table entry)
 PKG_OPS = {"pkg/config": ["config"], "pkg/errors": ["suggest", "parse"], "pkg/sql/ast": ["span", "parse", "extract"], "pkg/metrics": ["metrics", "tokenize", "parse"],
@@ -40,26 +40,54 @@ KNOWN_RECORD = {"metrics.RecordTokenization", "metrics.RecordParse", "metrics.Re
 
 
 # ------------------------------------------------------------------------------------------------
-# shape diagnosis (python mirror of Model.Metrics.prog_ok, only used to say WHAT is wrong and to aim the search)
-
-def _canon_cas(skip, v):
-    return [{"op": "load", "r": 0}, {"op": "jmpif", "c": skip, "t": 5}, {"op": "cas", "r": 1, "old": {"reg": 0}, "new": v},
-            {"op": "jmpif", "c": {"not": {"eq": [{"reg": 1}, {"const": "0"}]}}, "t": 5}, {"op": "jmp", "t": 0}, {"op": "ret"}]
-
-
-def _max_skip(v):
-    return {"not": {"lt": [{"reg": 0}, v]}}
-
-
-def _min_skip(v):
-    return {"and": [{"not": {"eq": [{"reg": 0}, {"const": "-1"}]}}, {"not": {"lt": [v, {"reg": 0}]}}]}
-
+# shape diagnosis.  WHETHER a translated section has an accepted shape is decided by the model itself
+# (Model.Metrics.role_ok evaluated by Coq on the regenerated programs: coq_shape_failures); python only says WHAT is
+# wrong and aims the search.
 
 def _norm(x):
     return json.dumps(x, sort_keys=True)
 
 
-def section_defect(sec, role):
+def coq_shape_failures(tabs):
+    """{(pkg, func, field or None)} for which role_ok / known_locs is false on the regenerated programs; None if the
+    evaluation itself failed (generated file does not compile: reported through the instance lemma)"""
+    body = CASES_HDR
+    for pkg in sorted(tabs):
+        sh = gen10.short(pkg)
+        body += "Definition bad_%s := Eval vm_compute in shape_failures %s_roles 0%%N %s_progs.\nPrint bad_%s.\n" % (sh, sh, sh, sh)
+    ok, out, err = common.coq_cases("c10_shape", body)
+    if not ok:
+        return None
+    bad = set()
+    for pkg, t in tabs.items():
+        m = re.search(r"bad_%s\s*=\s*(\[[^\]]*\])" % gen10.short(pkg), out)
+        if not m:
+            return None
+        names = {i: f for f, i in t["fid"].items()}
+        for x in re.findall(r"\d+", m.group(1)):
+            i, l = divmod(int(x), 1000)
+            bad.add((pkg, t["progs"][i]["func"], names.get(l)))
+    return bad
+
+
+def rmw_description(sec, role):
+    """what is wrong with a read-modify-write section the model does not accept as a compare-and-swap retry loop"""
+    ins = sec.get("instrs") or []
+    ops = [i["op"] for i in ins]
+    if sec["cond"] is not None:
+        return "extreme value updated only under a condition on the arguments"
+    if "cas" not in ops:
+        return "extreme value not updated by a compare-and-swap loop (no compare-and-swap: a concurrent recording can overwrite a more extreme value)"
+    if "store" in ops or "add" in ops:
+        return "extreme value updated by a plain store on some path (a concurrent recording can overwrite a more extreme value)"
+    first_load = ops.index("load") if "load" in ops else 0
+    back = any(i["op"] in ("jmp", "jmpif") and i["t"] <= first_load and k > first_load for k, i in enumerate(ins))
+    if not back:
+        return "extreme value not updated by a compare-and-swap loop (no retry: a concurrent recording can overwrite a more extreme value)"
+    return "extreme value update is not a compare-and-swap retry loop of the proved class (Model.Metrics.is_rmw_loop: the swap must replace the loaded value by the recorded size only where that improves, and leave only after a successful swap or when the loaded value is good enough)"
+
+
+def section_defect(sec, role, coq_bad_here):
     """None if the section has the accepted shape for its role, else a short description"""
     if sec["kind"] == "unknown":
         return "statement not recognised by the translator: " + sec.get("text", "")
@@ -69,29 +97,33 @@ def section_defect(sec, role):
         return None if sec["kind"] == "add" else "counter updated by %s instead of an atomic add" % sec["kind"]
     if role == "RStamp":
         return None if sec["kind"] == "store" else "time stamp updated by %s" % sec["kind"]
-    if sec["kind"] != "rmw" or sec["cond"] is not None:
+    if sec["kind"] != "rmw":
         return "extreme value updated by %s" % sec["kind"]
-    ins = sec["instrs"]
-    v = ins[2].get("new") if len(ins) > 2 and ins[2]["op"] == "cas" else None
-    if v is None or "reg" in _norm(v):
-        return "extreme value not updated by a compare-and-swap loop (no retry: a concurrent recording can overwrite a more extreme value)"
-    want = _canon_cas(_max_skip(v) if role == "RMax" else _min_skip(v), v)
-    if _norm(ins) != _norm(want):
-        return "extreme value update is not the recognised compare-and-swap loop"
+    if coq_bad_here:
+        return rmw_description(sec, role)
     return None
 
 
-def diagnose(tabs):
+def diagnose(tabs, coq_bad):
     """list of (pkg, func, section, role, defect)"""
     out = []
     for pkg, t in tabs.items():
         roles = dict(t["roles"])
         for p in t["progs"]:
+            flagged = set()
             for s in p["sections"]:
                 role = roles.get(s["loc"])
-                d = section_defect(s, role) if role else "location %s is not a field of the metrics struct" % s["loc"]
+                here = coq_bad is not None and (pkg, p["func"], s["loc"]) in coq_bad
+                d = section_defect(s, role, here) if role else "location %s is not a field of the metrics struct" % s["loc"]
                 if d:
                     out.append((pkg, p, s, role, d))
+                    flagged.add(s["loc"])
+            # the model rejects a (function, location) for which the description above found nothing: still a defect
+            for (k, f, loc) in sorted(coq_bad or [], key=str):
+                if k == pkg and f == p["func"] and loc not in flagged and loc is not None:
+                    secs = [s for s in p["sections"] if s["loc"] == loc]
+                    if secs:
+                        out.append((pkg, p, secs[0], roles.get(loc), "the sections on %s do not have the shape proved exact for its role %s" % (loc, roles.get(loc))))
     return out
 
 
@@ -146,10 +178,11 @@ def seq_cases(tabs, rng, n):
                 continue
             p = rng.choice(progs)
             args = []
-            for name in (p["params"] or []):
-                if name in ("err",):
+            kinds = p.get("param_kinds") or ["int"] * len(p["params"] or [])
+            for kind in kinds:       # by the parameter's type, not its name
+                if kind == "error":
                     args.append(rng.choice([0, 0, 1, 2]))
-                elif name in ("fromPool",):
+                elif kind == "bool":
                     args.append(rng.choice([0, 1]))
                 else:
                     args.append(rng.choice([0, 1, 7, 120, 4096, rng.randint(0, 10 ** 6)]))
@@ -319,9 +352,20 @@ def run(tier):
     evals = 0
 
     # ---- translated programs: shape
-    defects = diagnose(tabs)
-    rp.cov["metrics_programs"] = {pkg: {p["func"]: [("%s:%s%s" % (s["loc"], s["kind"], "(cas-loop)" if s["kind"] == "rmw" and not section_defect(s, dict(t["roles"]).get(s["loc"])) else ""))
+    coq_bad = coq_shape_failures(tabs)
+    rp.obligation("shape of every translated Record* section decided by the model (Model.Metrics.role_ok / is_rmw_loop evaluated on the regenerated programs)",
+                  coq_bad is not None and not coq_bad, "" if coq_bad is None else json.dumps(sorted(map(str, coq_bad)))[:300])
+    defects = diagnose(tabs, coq_bad)
+    rp.cov["metrics_programs"] = {pkg: {p["func"]: [("%s:%s%s" % (s["loc"], s["kind"], "(cas-retry-loop)" if s["kind"] == "rmw" and not any(d[1] is p and d[2] is s for d in defects) else ""))
                                                     for s in p["sections"]] for p in t["progs"]} for pkg, t in tabs.items()}
+    rp.cov["metrics_state"] = {pkg: {"variables": t.get("vars"), "found_by": "role: package-level struct variable whose fields the exported Record* functions update with sync/atomic"} for pkg, t in tabs.items()}
+    for pkg, t in tabs.items():
+        if not t.get("vars") or not t["progs"]:
+            rp.violation({"kind": "table-gap", "theorem": "Inst_C10.%s_progs_ok" % gen10.short(pkg), "package": pkg,
+                          "translator_notes": static.get("metrics_notes") or [],
+                          "explanation": "the translator found no metrics state in %s (no package-level struct variable updated with sync/atomic by an exported Record* function): "
+                                         "nothing ties the model of the metrics protocol to this package any more" % pkg},
+                         "metrics_state_" + gen10.short(pkg), no_input=True)
     unknown_funcs = sorted({HARNESS_FUNCS[pkg] + p["func"] for pkg, t in tabs.items() for p in t["progs"]} - KNOWN_RECORD)
     if unknown_funcs:
         rp.cov["notes"].append("Record functions translated and proved about but not driven by the harness (added after the harness was written): %s" % unknown_funcs)
@@ -330,6 +374,8 @@ def run(tier):
         base = {"kind": "table-gap", "theorem": "Inst_C10.%s_progs_ok" % gen10.short(pkg), "package": pkg, "func": p["func"], "field": s["loc"],
                 "role": role, "where": s["pos"], "defect": d, "translated_section": s}
         w = witness_search(tabs, pkg, p, s, role) if s["kind"] == "rmw" and ok_inst is not None else None
+        if w:
+            base["model_witness"] = w     # the model's own refutation: a two-goroutine schedule that loses the update
         found = None
         if w and pkg == "pkg/metrics" and p["func"] == "RecordTokenization" and role in ("RMax", "RMin"):
             # the model's witness schedule as a real two-goroutine attempt (barrier-released, many rounds)
